@@ -11,6 +11,7 @@ import (
 	"reflect"
 	"runtime"
 	"sort"
+	"strings"
 	"sync"
 	"sync/atomic"
 
@@ -127,6 +128,59 @@ var readOps = map[string]func(m proto.Message, other proto.Message) string{
 
 var trailerSeq atomic.Int32
 
+// sharedViews holds, per message, the list and map views taken from it ONCE (by the main
+// goroutine, before the readers start): the readers then share the view objects themselves, not
+// only the message. Written only while no reader runs.
+var sharedViews = map[proto.Message][]protoreflect.Value{}
+
+func takeViews(m proto.Message) {
+	var vs []protoreflect.Value
+	r := m.ProtoReflect()
+	fds := r.Descriptor().Fields()
+	for i := 0; i < fds.Len(); i++ {
+		if fd := fds.Get(i); fd.IsList() || fd.IsMap() {
+			vs = append(vs, r.Get(fd))
+		}
+	}
+	sharedViews[m] = vs
+}
+
+func init() {
+	// every read-only method of the shared List / Map view objects
+	readOps["Views"] = func(m, _ proto.Message) string {
+		vs, ok := sharedViews[m]
+		if !ok {
+			return "no views"
+		}
+		n := 0
+		var keys []string
+		for _, v := range vs {
+			switch x := v.Interface().(type) {
+			case protoreflect.List:
+				for i := 0; i < x.Len(); i++ {
+					if x.Get(i).IsValid() {
+						n++
+					}
+				}
+				if x.IsValid() {
+					n++
+				}
+			case protoreflect.Map:
+				x.Range(func(k protoreflect.MapKey, v protoreflect.Value) bool {
+					keys = append(keys, k.String())
+					if x.Has(k) && x.Get(k).IsValid() {
+						n++
+					}
+					return true
+				})
+				n += x.Len()
+			}
+		}
+		sort.Strings(keys)
+		return fmt.Sprint(n, hashOf([]byte(strings.Join(keys, "\x00"))))
+	}
+}
+
 // cmdReaders: goroutines released from one barrier, no synchronisation between them afterwards,
 // each performing read-only operations on one shared message. Built with -race.
 func cmdReaders(args []string) {
@@ -186,6 +240,7 @@ func cmdReaders(args []string) {
 		// code's own methods before the goroutines start (dynamicpb twin; struct-level fill), so
 		// that the very first use of the type's fast paths in this process is the concurrent one
 		twin := proto.Message(d)
+		takeViews(shared)
 		want := map[string]string{}
 		computeWant := func() {
 			// (an independent instance with the same value: cloning the shared message would be a
@@ -194,6 +249,7 @@ func cmdReaders(args []string) {
 			if b, err := proto.Marshal(d); err != nil || proto.Unmarshal(b, seqm) != nil {
 				seqm = proto.Clone(shared)
 			}
+			takeViews(seqm)
 			for _, k := range names {
 				want[k] = readOps[k](seqm, twin)
 			}
@@ -225,6 +281,9 @@ func cmdReaders(args []string) {
 						assign[t] = []string{[]string{"Size", "MarshalDet", "Marshal", "Clone"}[t%4], "Size"}
 					}
 				}
+				// fresh view objects for every run: the first call on a view is as interesting as the
+				// first call on a type, and it must be a concurrent one
+				takeViews(shared)
 				results := make([][]string, k)
 				start := make(chan struct{})
 				var wg sync.WaitGroup
